@@ -1,9 +1,9 @@
 """C20 — on-demand pull against a scriptable fake camera (harness/cmd/c20).
-A case = (cfg rounds); cfg = (creds tracks sdpkind urlkind keepalive routed); a round = (again script);
+A case = (cfg rounds); cfg = (creds tracks sdpkind urlkind keepalive routed split); a round = (again script);
 a script = reply kinds: item 0 answers the connect, item n+1 the n-th request, items after the
 accepted PLAY are play events.  Kinds: 0 ok, 1 401 Basic, 2 401 Digest, 3 4xx, 4 5xx, 5 malformed,
 6 silence until the time-out, 7 reset, 8 EOF, 9 401 with an unknown scheme."""
-import os, re, subprocess
+import hashlib, os, re, subprocess, threading
 import vlib
 from vlib import vparse, vs
 
@@ -12,8 +12,9 @@ KINDS = list(range(10))
 CHALLENGES = [BASIC, DIGEST, AUTHX]
 
 
-def cfg(creds=1, tracks=3, sdpkind=0, urlkind=0, keepalive=1, routed=1):
-    return [creds, tracks, sdpkind, urlkind, keepalive, routed]
+def cfg(creds=1, tracks=3, sdpkind=0, urlkind=0, keepalive=1, routed=1, split=0):
+    # split: the camera sends an answer that has a body (DESCRIBE) in two TCP segments
+    return [creds, tracks, sdpkind, urlkind, keepalive, routed, split]
 
 
 def nsteps(tracks):
@@ -70,6 +71,9 @@ def config_cases():
         for creds in (0, 1):
             out.append([cfg(creds=creds, sdpkind=sdpkind), [[0, full], [0, [OK, DIGEST] + full]]])
     out.append([cfg(routed=0), [[0, full], [1, full]]])
+    for tracks in (1, 2, 3):
+        for creds in (0, 1):
+            out.append([cfg(creds=creds, tracks=tracks, split=1), [[creds, full], [0, [OK, DIGEST] + full]]])
     out.append([cfg(), [[0, []], [0, [OK]], [0, [OK, OK]], [0, [OK] * 6]]])
     return out
 
@@ -93,7 +97,8 @@ def rand_script(rng, maxlen, silence):
 def rand_case(rng, silence):
     c = cfg(creds=1 if rng.random() < 0.8 else 0, tracks=rng.choice([0, 1, 2, 3, 3, 3]),
             sdpkind=0 if rng.random() < 0.9 else rng.choice([1, 2]), urlkind=rng.choice([0, 0, 1, 2]),
-            keepalive=rng.choice([0, 1]), routed=0 if rng.random() < 0.03 else 1)
+            keepalive=rng.choice([0, 1]), routed=0 if rng.random() < 0.03 else 1,
+            split=1 if rng.random() < 0.15 else 0)
     return [c, [[rng.choice([0, 1]), rand_script(rng, 16, silence)] for _ in range(rng.randint(1, 3))]]
 
 
@@ -132,6 +137,88 @@ def sig(c, e, o):
     return "pull-scenario"
 
 
+SKIP = vs(["!skip"])
+UNEVAL = vs(["!uneval"])
+
+
+def observe(prop, vh_cmd, lines, timeout=3000):
+    """run the harness on the cases.  A process that has run into one of its (generous) wait bounds answers the
+    cases that follow with "!skip" instead of measuring next to leftovers: those are re-run in a fresh process."""
+    obs = [SKIP] * len(lines)
+    todo = list(range(len(lines)))
+    for _ in range(4):
+        if not todo:
+            break
+        out = vlib.run_vh(prop, vh_cmd, [lines[i] for i in todo], timeout=timeout)
+        nxt = []
+        for i, o in zip(todo, out):
+            obs[i] = o
+            if o == SKIP:
+                nxt.append(i)
+        if len(nxt) == len(todo):   # no progress
+            break
+        todo = nxt
+    return obs
+
+
+class Lane(threading.Thread):
+    """a harness process of its own (own registry, counters, time-out setting) running in parallel"""
+    def __init__(self, prop, vh_cmd, lines):
+        super().__init__()
+        self.args, self.obs, self.err = (prop, vh_cmd, lines), None, None
+        self.start()
+
+    def run(self):
+        try:
+            self.obs = observe(*self.args)
+        except Exception as ex:   # reported by account()
+            self.err = ex
+
+
+def account(ck, name, cases, run_fn, ok_fn, obs, nontrivial=None, sig=None, sample=3):
+    """ck.stream's bookkeeping for observations made by observe(); cases that could not be evaluated ("!skip" left
+    over, "!uneval" = the scenario's set-up was not reached) are counted, not judged"""
+    lines = [vs(c) for c in cases]
+    st = {"stream": name, "cases": len(lines), "oracle_failures": 0, "divergences": 0, "panics": 0, "unevaluated": 0}
+    ck.streams.append(st)
+    if not lines:
+        return st
+    try:
+        exp = vlib.run_driver(ck.prop, run_fn, lines)
+        oks = vlib.run_driver(ck.prop, ok_fn, ["(%s %s)" % (l, o) for l, o in zip(lines, obs)])
+    except vlib.Broken as b:
+        ck.broken.append(b)
+        return st
+    seen = set()
+    for c, l, e, o, k in zip(cases, lines, exp, obs, oks):
+        if o in (SKIP, UNEVAL):
+            st["unevaluated"] += 1
+            continue
+        ck.evaluations += 1
+        h = hashlib.md5(l.encode()).hexdigest()
+        if nontrivial is None or nontrivial(c):
+            ck.nontrivial.add(name + h)
+        if o.startswith(vlib.PANIC_PREFIX) or o.startswith("(x2163726173") or o.startswith("(x2168616e67"):
+            st["panics"] += 1
+        if k != "1":
+            st["oracle_failures"] += 1
+            ck.failures.append({"stream": name, "sig": sig(c, e, o) if sig else name, "case": l, "expected": e,
+                                "observed": o, "run_fn": run_fn, "vh_cmd": "C20" if run_fn == "C20_run" else run_fn[:-4],
+                                "ok_fn": ok_fn})
+        elif e != o:
+            st["divergences"] += 1
+            ck.divergences.append({"stream": name, "case": l, "expected": e, "observed": o, "run_fn": run_fn,
+                                   "vh_cmd": "C20" if run_fn == "C20_run" else run_fn[:-4], "ok_fn": ok_fn})
+        if len([x for x in ck.samples if x["stream"] == name]) < sample and h not in seen:
+            seen.add(h)
+            ck.samples.append({"stream": name, "case": l[:400], "observed": o[:400]})
+    return st
+
+
+def has_silence(c):
+    return any(SILENCE in r[1] for r in c[1])
+
+
 def race_step(ck):
     """thorough tier: cameras that hang up right after accepting PLAY (no waiting for the harness), under the Go
     race detector; a report whose two conflicting accesses are both in the pull client / pull factory is a failure
@@ -166,13 +253,29 @@ def run(ck):
     if not ck.prepare(race=T):
         return ck.finish(rule="build failed")
     rng = ck.rng
-    ck.stream("steps", step_cases(), "C20_run", "C20", "C20_ok", nontrivial=nontrivial, sig=sig, timeout=1500)
-    ck.stream("auth", auth_cases(rng, T), "C20_run", "C20", "C20_ok", nontrivial=nontrivial, sig=sig, timeout=1500)
-    ck.stream("config", config_cases(), "C20_run", "C20", "C20_ok", nontrivial=nontrivial, sig=sig, timeout=1500)
-    ck.stream("play", play_cases(T), "C20_run", "C20", "C20_ok", nontrivial=nontrivial, sig=sig, timeout=1500)
+    # scenario streams; the cases that contain a silence (2 s each: the client's time-out under test) run in
+    # processes of their own, in parallel with the others
+    groups = [("steps", step_cases()), ("auth", auth_cases(rng, T)), ("config", config_cases()),
+              ("play", play_cases(T))]
     n = 1500 if T else 120
-    ck.stream("random", [rand_case(rng, T or i % 10 == 0) for i in range(n)], "C20_run", "C20", "C20_ok",
-              nontrivial=nontrivial, sig=sig, timeout=2400)
+    groups.append(("random", [rand_case(rng, (i % 4 == 0) if T else (i % 10 == 0)) for i in range(n)]))
+    slow = [c for _, cs in groups for c in cs if has_silence(c)]
+    nl = 3 if T else 2
+    lanes = [Lane(ck.prop, "C20", [vs(c) for c in slow[i::nl]]) for i in range(nl)]
+    results = []
+    for name, cs in groups:
+        fast = [c for c in cs if not has_silence(c)]
+        results.append(account(ck, name, fast, "C20_run", "C20_ok", observe(ck.prop, "C20", [vs(c) for c in fast]),
+                               nontrivial=nontrivial, sig=sig))
+    for ln in lanes:
+        ln.join()
+    sobs = [None] * len(slow)
+    for i, ln in enumerate(lanes):
+        if ln.err is not None:
+            ck.broken.append(vlib.Broken("harness failed on the silence lane", str(ln.err)))
+            ln.obs = [SKIP] * len(slow[i::nl])
+        sobs[i::nl] = ln.obs
+    results.append(account(ck, "silence", slow, "C20_run", "C20_ok", sobs, nontrivial=nontrivial, sig=sig))
     # simultaneous first requests: n requesters, delays (ms) at the point between swap and retire in media.Regist
     conc = []
     for n in (2, 3, 4) if T else (2, 3):
@@ -180,8 +283,9 @@ def run(ck):
             conc.append([n, tracks, [0] * n])
             for _ in range(12 if T else 2):
                 conc.append([n, tracks, [rng.choice([0, 0, 1, 3, 8]) for _ in range(n)]])
-    ck.stream("concurrent", conc, "C20conc_run", "C20conc", "C20conc_ok", nontrivial=lambda c: c[0] >= 2,
-              sig=lambda c, e, o: "pull-concurrent", timeout=900)
+    results.append(account(ck, "concurrent", conc, "C20conc_run", "C20conc_ok",
+                           observe(ck.prop, "C20conc", [vs(c) for c in conc]), nontrivial=lambda c: c[0] >= 2,
+                           sig=lambda c, e, o: "pull-concurrent"))
     # overlapping first requests with consumers attached before / during / after the other registration; the
     # cameras end later: case = (tracks first attach1 attach2 end2first kind1 kind2 keepalive), attach1 = 0 none,
     # 1 before the second registration, 2 between its swap and its consumer-count check, 3 right after stream 1
@@ -197,17 +301,24 @@ def run(ck):
     for _ in range(60 if T else 8):
         repl.append([rng.choice([0, 1, 2, 3]), rng.choice([0, 1]), rng.choice([0, 1, 2, 3, 4, 4]), rng.choice([0, 1]),
                      rng.choice([0, 1]), rng.choice([EOF, RESET]), rng.choice([EOF, RESET]), rng.choice([0, 1])])
-    ck.stream("replaced", repl, "C20repl_run", "C20repl", "C20repl_ok", nontrivial=lambda c: c[2] or c[3],
-              sig=lambda c, e, o: "pull-replaced-stream-consumers", timeout=900)
+    results.append(account(ck, "replaced", repl, "C20repl_run", "C20repl_ok",
+                           observe(ck.prop, "C20repl", [vs(c) for c in repl]), nontrivial=lambda c: c[2] or c[3],
+                           sig=lambda c, e, o: "pull-replaced-stream-consumers"))
     if T:
         race_step(ck)
+    # cases that could not be evaluated are not violations; too many of them make the run worthless
+    total = sum(r["cases"] for r in results)
+    uneval = sum(r["unevaluated"] for r in results)
+    ck.extra["unevaluated"] = uneval
+    if not ck.failures and uneval * 10 > total:
+        ck.fail("all", "pull-too-few-cases-evaluated", "", note="%d of %d cases could not be evaluated" % (uneval, total))
     return ck.finish(
         rule="scripts for a fake RTSP camera on 127.0.0.1 (reply kind per request: ok, 401 Basic, 401 Digest, 401 unknown scheme, "
              "4xx, 5xx, malformed, silence until the time-out, reset, EOF), requests through media.GetOrCreate with the route "
              "configured by route.Save: (steps) every handshake step incl. connect and the first play event x every reply kind, "
              "with/without credentials in the route URL, 1 and 2 tracks; (auth) 1-3 consecutive challenges of every scheme "
              "combination at every step and challenges at two different steps, followed by a second request that must pull "
-             "afresh; (config) 0-2 tracks x URL path forms (empty, trailing slash) x keep-alive, unusable SDP bodies, unrouted "
+             "afresh; (config) 0-2 tracks x URL path forms (empty, trailing slash) x keep-alive, unusable SDP bodies, the DESCRIBE answer in two TCP segments, unrouted "
              "path, scripts that end after 0..n steps; (play) ending/non-ending events at offsets of the play phase; (random) "
              "1-3 rounds of random scripts of length 0..16; (concurrent) 2-4 requesters released together against an all-ok camera, with "
              "delays injected between swap and retire in media.Regist, observed after a packet on every connection; (replaced) two "
@@ -223,6 +334,6 @@ def run(ck):
              "the all-ok handshake or reaches the play phase",
         trusted=["the fake camera and its request classifier (harness) — Authorization headers are recomputed from the route URL's credentials",
                  "sockets are counted through /proc/self/fd, goroutines through runtime.Stack filtered to pull_client functions",
-                 "the network time-out is lowered with config.VerifSetNetTimeout (default 700 ms, C20_TIMEOUT_MS) so that silence is testable"],
+                 "the client's response deadline (config.NetTimeout, set through config.VerifSetNetTimeout) is 20 s in every step that is not a time-out scenario and 2 s only for the read that meets the scripted silence (the camera shortens it just before answering the preceding step; a play phase ending in a silence is kept busy with ignored unsolicited responses until the silence starts); every wait of the harness is a wait for the event itself with a 30 s bound; a process that ran into a bound answers later cases !skip and they are re-run in a fresh process; unevaluable cases are counted (evidence: unevaluated), never judged"],
         assumptions=["the camera's 200 replies to SETUP and PLAY carry a Session header, other replies do not",
                      "loopback TCP; DNS and faults below TCP are outside", "keep-alive OPTIONS (30 s) does not fire within a scenario"])
